@@ -113,6 +113,10 @@ func (b *popBuilder) muts(start uint64, keys []string) map[string]mut {
 			m[k] = mut{kvrpcpb.Op_Put, fmt.Sprintf("v%d.%s", start, k)}
 		case x < 8:
 			m[k] = mut{kvrpcpb.Op_Del, ""}
+		case b.u.Backend == uni.Uni:
+			// unistore keeps the commit of a lock-only mutation outside the write records MvccGetByKey shows;
+			// the truth could not tell such a key committed from rolled back
+			m[k] = mut{kvrpcpb.Op_Put, fmt.Sprintf("w%d.%s", start, k)}
 		default:
 			m[k] = mut{kvrpcpb.Op_Lock, ""}
 		}
@@ -585,6 +589,10 @@ func judge(regs []*txnReg, before, after *snapshotOfStore, sp uint64, full bool)
 		return fmt.Sprintf("%s-%s", strings.ToLower(l.Type.String()), r)
 	}
 	adds := map[string][]uni.Write{}
+	// optional: TiKV commits a left-over pessimistic lock of a committed transaction as a lock-only record
+	// (invisible to readers) when a resolve request of that transaction sweeps the region before the
+	// pessimistic rollback of that key ran; both results are "the same outcome"
+	optional := map[string]bool{}
 	for k, l := range before.locks {
 		if l.StartTS > sp {
 			continue
@@ -600,6 +608,8 @@ func judge(regs []*txnReg, before, after *snapshotOfStore, sp uint64, full bool)
 				w.Value = []byte(t.Muts[k].Val)
 			}
 			adds[k] = append(adds[k], w)
+		} else if o.Committed && isPess(l) {
+			optional[k+"|"+wkey(uni.Write{StartTS: l.StartTS, CommitTS: o.CommitTS, Type: kvrpcpb.Op_Lock})] = true
 		}
 	}
 	expected = map[string][]uni.Write{}
@@ -624,7 +634,7 @@ func judge(regs []*txnReg, before, after *snapshotOfStore, sp uint64, full bool)
 			aset[wkey(w)] = w
 		}
 		for id, w := range aset {
-			if bset[id] || addset[id] {
+			if bset[id] || addset[id] || optional[k+"|"+id] {
 				continue
 			}
 			o := outcomes[w.StartTS]
@@ -1201,7 +1211,7 @@ func TestVerifC14GC(t *testing.T) {
 	defer failpoint.Disable("tikvclient/fastBackoffBySkipSleep")
 	seed := vrep.Seed()
 	rng := vrep.Rand("c14-gc")
-	n := vrep.Pick(36, 400)
+	n := vrep.Pick(96, 900)
 	only := os.Getenv("VERIF_C14_ONLY")
 	var cases []gcCase
 	for i := 0; i < n; i++ {
